@@ -86,8 +86,10 @@ func (r *recv) OnDecodeError(ctx context.Context, err error, headers types.Heade
 
 type lis struct{ wt *waiter }
 
-func (l *lis) OnResetStream(reason types.StreamResetReason) { l.wt.run.resets = append(l.wt.run.resets, l.wt.w) }
-func (l *lis) OnDestroyStream()                             {}
+func (l *lis) OnResetStream(reason types.StreamResetReason) {
+	l.wt.run.resets = append(l.wt.run.resets, l.wt.w)
+}
+func (l *lis) OnDestroyStream() {}
 
 type wireReq struct {
 	id  uint32
